@@ -272,7 +272,7 @@ def remaining (s : St) (g : Nat) : Option (List Nat) :=
   | none => none
 
 /-- completeness of one `next(g)`: it yields the first remaining PID that has not vanished -/
-theorem genNext_complete (cfg : Cfg) (hd : cfg.drainFirst = true) (s : St) (g : Nat) (mid : List KEv)
+theorem genNext_complete (cfg : Cfg) (s : St) (hd : cfg.drainFirst = true ∨ s.flagged = []) (g : Nat) (mid : List KEv)
     (hi : Inv s) (gen : Gen) (hg : s.gens[g]? = some gen) (hnr : NoReuse cfg gen.attrs)
     (l : List Nat) (hl : remaining s g = some l) :
     (∀ r p info, (genNext cfg s g mid).2 = .yield r p info →
